@@ -115,11 +115,13 @@ func (state *IntraAnalysisState) DoExtract(x *ssa.Extract) {
 	// - next instructions
 	// - select instructions
 	// - lookup instructions
-	// Since next, select, lookup instructions are not nodes in the graph, we have to be careful about
-	// how extract interacts with them.
+	// - comma-ok type assertions and comma-ok receives
+	// Since only call instructions are nodes in the graph, we have to be careful about how extract interacts
+	// with the other ones: the index of a mark is the position in a tuple returned by a call, it does not select
+	// the components of the tuples built by the other instructions.
 	isUntrackedTuple := false
 	switch x.Tuple.(type) {
-	case *ssa.Next, *ssa.Select, *ssa.Lookup:
+	case *ssa.Next, *ssa.Select, *ssa.Lookup, *ssa.TypeAssert, *ssa.UnOp:
 		isUntrackedTuple = true
 	}
 	if isUntrackedTuple {
